@@ -3,6 +3,8 @@
 cd /verif
 pat=${1:-*}
 out=seeded/MATRIX.txt
+# the checks rewrite evidence/ on every run: keep the files of the unchanged tree
+keep=$(mktemp -d); cp -r evidence $keep/; trap 'rm -rf evidence; cp -r $keep/evidence evidence; rm -rf $keep' EXIT
 for d in seeded/$pat/; do
   id=$(basename $d)
   [ -f $d/patch.diff ] || continue
